@@ -7,7 +7,8 @@ Require Import Clarabel.Base.Ops Clarabel.Base.Dyadic Clarabel.Term.Eval Clarabe
         Clarabel.Term.Spec Clarabel.Term.Check.
 Require Import Clarabel.Term.LemmasVerdict Clarabel.Term.LemmasCheck Clarabel.Term.LemmasCheck2
         Clarabel.Term.LemmasExp Clarabel.Term.LemmasPsd Clarabel.Term.LemmasFinal
-        Clarabel.Term.LemmasAlg Clarabel.Term.Farkas Clarabel.Term.LemmasMisc.
+        Clarabel.Term.LemmasAlg Clarabel.Term.Farkas Clarabel.Term.LemmasMisc
+        Clarabel.Term.FarkasGen Clarabel.Term.PairExp Clarabel.Term.PairPow Clarabel.Term.PairPsd Clarabel.Term.FarkasAll.
 
 Theorem C03_case_report_sound :
   forall (p : prob) (se : setD) (o : outD),
